@@ -16,6 +16,7 @@ correspond (model `drv_c10` vs implementation):
        opaque table) vs the fresh start of the implementation;  (R4) version window.
 """
 import ast
+import copy
 import hashlib
 import inspect
 import json
@@ -123,13 +124,28 @@ def view(s, U):
     return v
 
 
-def do_call(s, c):
+def do_call(s, c, held=None):
+    """held: the argument objects handed to the container setters so far (per instance), keyed by (method, path text);
+    a call with "resub" mutates THAT object in place and hands the very same object in again (as the builder does)"""
     m = c["m"]
     if m == "setAsync":
         return s.setAsynchronous()
     if m == "setSync":
         return s.setSynchronous()
     args = [ast.literal_eval(t) for t in c["p"]]
+    if held is not None and m in ("setDirectoryState", "setLayerState", "setAtticDirectoryState"):
+        key = m + ":" + c["p"][0]
+        if "resub" in c:
+            obj = held[key]
+            kind, kt, vt = c["resub"]
+            if kind == "dict":
+                obj[ast.literal_eval(kt)] = ast.literal_eval(vt)
+            else:
+                obj.append(ast.literal_eval(vt))
+            assert obj == args[1], "harness: in-place mutated object differs from the generated value"
+            args[1] = obj
+        elif isinstance(args[1], (dict, list)):
+            held[key] = args[1]
     if m in ("addJenkins", "setJenkinsConfig"):
         args[1] = mkjc(args[1])
     return getattr(s, m)(*args)
@@ -154,11 +170,12 @@ def run_script(script, mk, seqno):
             continue
         os.write(mk, b"V %d\n" % k)
         rec["view0"] = view(s, U)
+        held = {}
         for i, c in enumerate(calls):
             os.write(mk, b"C %d %d\n" % (k, i))
             r = {}
             try:
-                ret = do_call(s, c)
+                ret = do_call(s, c, held)
                 r["ret"] = ret if (ret is None or isinstance(ret, str)) else canon(ret)
             except BaseException as e:
                 r["exc"] = type(e).__name__
@@ -252,10 +269,45 @@ def gen_value(r, big=False):
     return r.choice([b"v1", "text", 7, True])
 
 
-def gen_call(r):
-    """one API call: m = method, a = arguments for the model (strings), p = python literals for the child"""
+def gen_container(r):
+    if r.random() < 0.7:
+        return {r.choice([None, "sub", "a/b"]): (r.choice([b"d1", b"d2"]), r.choice([None, {"scm": "git", "url": "u"}]))}
+    return [r.choice([b"i1", b"i2"]) for _ in range(r.randrange(3))]
+
+
+def gen_call(r, held=None, resub=0.0):
+    """one API call: m = method, a = arguments for the model (strings), p = python literals for the child.
+    held (generator side, values are the generator's OWN deep copies): what the objects handed to the container setters
+    in this invocation hold by now; with probability resub the call is "mutate the object handed in last time for this
+    (method, path) in place and hand the same object in again"."""
     def S(m, a, p):
         return {"m": m, "a": a, "p": p}
+    if held is not None and resub and r.random() < resub:
+        if held and r.random() < 0.7:
+            key = r.choice(sorted(held))
+            m, ptxt = key.split(":", 1)
+            val = copy.deepcopy(held[key])
+            if isinstance(val, dict):
+                nk = r.choice([None, "sub", "a/b", "c"])
+                nv = (r.choice([b"d1", b"d2", b"d3"]), r.choice([None, {"scm": "git", "url": "u"}, {"scm": "git", "url": "w"}]))
+                if val.get(nk, 0) == nv:
+                    nv = (b"d4", None)
+                val[nk] = nv
+                mut = ["dict", canon(nk), canon(nv)]
+            else:
+                nv = r.choice([b"i1", b"i2", b"i3"])
+                val.append(nv)
+                mut = ["list", "None", canon(nv)]
+            held[key] = copy.deepcopy(val)
+            mp = ast.literal_eval(ptxt)
+            c = S(m, [os.path.normpath(mp) if m == "setAtticDirectoryState" else mp, canon(val)], [ptxt, canon(val)])
+            c["resub"] = mut
+            return c
+        m = r.choice(["setDirectoryState", "setDirectoryState", "setLayerState", "setAtticDirectoryState"])
+        mp = r.choice(ATTIC_POOL) if m == "setAtticDirectoryState" else r.choice(PATH_POOL)
+        v = gen_container(r)
+        held[m + ":" + repr(mp)] = copy.deepcopy(v)
+        return S(m, [os.path.normpath(mp) if m == "setAtticDirectoryState" else mp, canon(v)], [repr(mp), canon(v)])
     path = r.choice(PATH_POOL)
     k = r.random()
     if k < 0.06:
@@ -268,6 +320,9 @@ def gen_call(r):
     if k < 0.52:
         m = r.choice(["setResultHash", "setInputHashes", "setVariantId", "setLayerState", "setDirectoryState"])
         v = gen_value(r, big=r.random() < 0.04)
+        if held is not None and m in ("setLayerState", "setDirectoryState"):
+            if isinstance(v, (dict, list)):
+                held[m + ":" + repr(path)] = copy.deepcopy(v)
         return S(m, [path, canon(v)], [repr(path), canon(v)])
     if k < 0.62:
         m = r.choice(["delInputHashes", "delLayerState", "delDirectoryState"])
@@ -282,6 +337,8 @@ def gen_call(r):
         p = r.choice(ATTIC_POOL)
         if r.random() < 0.6:
             v = gen_value(r)
+            if held is not None and isinstance(v, (dict, list)):
+                held["setAtticDirectoryState:" + repr(p)] = copy.deepcopy(v)
             return S("setAtticDirectoryState", [os.path.normpath(p), canon(v)], [repr(p), canon(v)])
         p = r.choice(ATTIC_POOL + [os.path.normpath(x) for x in ATTIC_POOL])
         return S("delAtticDirectoryState", [p], [repr(p)])
@@ -308,13 +365,17 @@ def gen_call(r):
     return S(m, [j, job, canon(v)], [repr(j), repr(job), canon(v)])
 
 
-def gen_script(r, max_inv=4, max_calls=12):
+RESUB_FIRST = 50   # the first sequences of the stream are dense in "re-submit the same object after an in-place change"
+
+
+def gen_script(r, max_inv=4, max_calls=12, resub=0.0):
     invs = []
     for _ in range(r.randrange(1, max_inv + 1)):
         calls = []
         depth = 0
-        for _ in range(r.randrange(0, max_calls + 1)):
-            c = gen_call(r)
+        held = {} if resub else None
+        for _ in range(r.randrange(4 if resub >= 0.3 else 0, max_calls + 1)):
+            c = gen_call(r, held, resub)
             # mostly balanced asynchronous sections; a few sequences keep the unbalanced calls
             if c["m"] == "setSync" and depth == 0 and r.random() < 0.9:
                 continue
@@ -987,7 +1048,7 @@ def _jobs(ctx, n, tag, want_images=0, batch=2):
     for b in range(0, n, batch):
         items = []
         for i in range(b, min(n, b + batch)):
-            items.append((gen_script(ctx.subrng(tag, i)), "%s%d" % (tag, i), "%s-%d-%s-%d" % (ctx.prop, ctx.seed, tag, i)))
+            items.append((_script_of(ctx, i, tag), "%s%d" % (tag, i), "%s-%d-%s-%d" % (ctx.prop, ctx.seed, tag, i)))
         jobs.append((ctx.tmp, ctx.repo, items, "%s%d" % (tag, b), ctx.tier == "thorough", ctx.scale(4000, 100000), want_images))
     return jobs
 
@@ -1014,7 +1075,8 @@ def _sequences(ctx):
     import time
     t0 = time.time()
     # rounds sized by the measured rate so that the stream stops at half of the time budget whatever the machine load
-    i, chunk = 0, 8
+    # the first round is mandatory: it holds the RESUB_FIRST sequences dense in in-place re-submissions (2 per job)
+    i, chunk = 0, max(8, (RESUB_FIRST + 1) // 2)
     while i < len(jobs):
         left = ctx.time_left() - ctx.budget * 0.5
         if i and left < (time.time() - t0) / i * min(chunk, 4):
@@ -1628,8 +1690,8 @@ def oracle(ctx):
     fault_oracle(ctx)
 
 
-def _script_of(ctx, i):
-    return gen_script(ctx.subrng("s", i))
+def _script_of(ctx, i, tag="s"):
+    return gen_script(ctx.subrng(tag, i), resub=0.45 if (tag == "s" and i < RESUB_FIRST) else 0.06)
 
 
 def norm_ops(ops):
